@@ -259,8 +259,12 @@ def hmap_order(vm, hm):
 def _sort_key(k):
     if isinstance(k, (int, float, bool)): return (0, k)
     if isinstance(k, SymStr): return (1, zstr(z3.simplify(k.term)))
-    if isinstance(k, BStr): return (1, k.concrete())
+    if isinstance(k, BStr):
+        c = k.concrete()
+        if c is None: raise TypeError
+        return (1, c)
     if isinstance(k, Adt): return (2, k.variant, tuple(_sort_key(f) for f in k.fields))
+    if isinstance(k, HList): return (3, tuple(_sort_key(f) for f in k.items))
     raise TypeError
 
 
